@@ -224,31 +224,44 @@ func checkC01(c *Ctx) {
 
 	// (2) increment discipline in the function(s) that call Save
 	r.Floor("C01.2-increment-after-save-success", 1)
-	for _, fn := range c.funcsCalling(save, "server") {
-		r.Func(fk(fn))
-		sites := core.CallsTo(fn, save)
+	for _, sfn := range c.funcsCalling(save, "server") {
+		r.Func(fk(sfn))
+		// the saving function may be one phase of a function split into validate / apply / notify:
+		// the rules range over the function the phases belong to
+		root := c.phaseRoot(sfn)
+		region := c.regionOf(root)
+		sites := core.CallsTo(sfn, save)
 		for _, site := range sites {
 			r.CallSites++
 			g := successGuard(site)
 			var myIncr []*ssa.Store
 			for _, st := range incrStores {
-				if st.Parent() == fn {
+				if region[st.Parent()] {
 					myIncr = append(myIncr, st)
 				}
 			}
-			construct := fk(fn) + ": Topic.lastID++ after store.Messages.Save"
+			construct := fk(root) + ": Topic.lastID++ after store.Messages.Save"
 			if len(myIncr) == 0 {
 				r.Fail("C01.2-increment-after-save-success", construct, c.pos(site), "function saves a message but never advances Topic.lastID")
 				continue
 			}
+			// the function in which the order of Save and another instruction is decided: the saving
+			// function itself when both are there, the root otherwise
+			scope := func(in ssa.Instruction) *ssa.Function {
+				if in.Parent() == sfn {
+					return sfn
+				}
+				return root
+			}
 			for _, st := range myIncr {
-				ok, cnt := core.GuardedBy(fn, st, g)
+				ok, cnt := core.GuardedBy(st.Parent(), st, g)
 				r.Check(ok && cnt[0] > 0, "C01.2-increment-after-save-success", construct, c.pos(st),
 					"increment is reachable only through err==nil of Save", "Topic.lastID is advanced on a path where Messages.Save did not succeed (or its error is not tested)")
 				// every success path increments: from success edge to return, must pass the store
-				pe, _ := core.PassEdges(fn, g)
-				found, _ := core.PathFromEdgeAvoiding(fn, pe, core.IsReturn, func(in ssa.Instruction) bool { return in == ssa.Instruction(st) }, nil)
-				r.Check(!found, "C01.2b-success-always-increments", construct, c.pos(st),
+				F := scope(st)
+				pe, _ := core.PassEdges(F, g)
+				found, _ := core.PathFromEdgeAvoidingX(F, pe, core.IsReturn, func(in ssa.Instruction) bool { return in == ssa.Instruction(st) }, nil)
+				r.Check(!found && len(pe) > 0, "C01.2b-success-always-increments", construct, c.pos(st),
 					"every path from Save success to return passes the increment", "a path from a successful Save to return skips the lastID increment (number would be re-issued)")
 			}
 			// no store to lastID between entry and Save
@@ -260,20 +273,28 @@ func checkC01(c *Ctx) {
 				f, _ := core.FieldOfAddr(s.Addr)
 				return f == lastID
 			}
-			found, w := core.PathAvoiding(fn, nil, isLastStore, func(in ssa.Instruction) bool { return in == ssa.Instruction(site.(ssa.Instruction)) }, nil)
-			r.Check(!found, "C01.2c-no-write-before-save", fk(fn)+": no lastID store before Save", c.pos(site),
+			found, w := core.PathAvoidingX(root, nil, isLastStore, func(in ssa.Instruction) bool { return in == ssa.Instruction(site.(ssa.Instruction)) }, nil)
+			r.Check(!found, "C01.2c-no-write-before-save", fk(root)+": no lastID store before Save", c.pos(site),
 				"lastID untouched before Save", "Topic.lastID is written before Messages.Save on some path"+posOf(c, w))
 
 			// failure edge effect-free
-			fe := core.FailEdges(fn, g)
-			if bad := c.effectFreeFrom(fn, fe, nil); bad != nil {
-				r.Fail("C01.2d-failed-save-consumes-nothing", fk(fn)+": Save failure edge", c.pos(bad), "effect after a failed Save: "+bad.String())
+			fe := core.FailEdges(sfn, g)
+			if bad := c.effectFreeFrom(sfn, fe, nil); bad != nil {
+				r.Fail("C01.2d-failed-save-consumes-nothing", fk(root)+": Save failure edge", c.pos(bad), "effect after a failed Save: "+bad.String())
+			} else if sfn != root {
+				// and the caller does nothing either once the phase reported the failure
+				fe2 := core.FailEdges(root, g)
+				if bad := c.effectFreeFrom(root, fe2, nil); bad != nil || len(fe2) == 0 {
+					r.Fail("C01.2d-failed-save-consumes-nothing", fk(root)+": Save failure edge", c.pos(site), "effect after a failed Save (in the caller of the saving phase)")
+				} else {
+					r.OK("C01.2d-failed-save-consumes-nothing", fk(root)+": Save failure edge", c.pos(site), "only reply/logging between failed Save and return")
+				}
 			} else {
-				r.OK("C01.2d-failed-save-consumes-nothing", fk(fn)+": Save failure edge", c.pos(site), "only reply/logging between failed Save and return")
+				r.OK("C01.2d-failed-save-consumes-nothing", fk(root)+": Save failure edge", c.pos(site), "only reply/logging between failed Save and return")
 			}
 
 			// acknowledged seq and broadcast SeqId are loads of lastID after the increment
-			c.checkSeqReported(fn, myIncr, lastID, seqIdData)
+			c.checkSeqReported(root, myIncr, lastID, seqIdData)
 		}
 	}
 
@@ -345,7 +366,7 @@ func (c *Ctx) checkSeqReported(fn *ssa.Function, incr []*ssa.Store, lastID, seqI
 		return false
 	}
 	n := 0
-	core.AllInstrs(fn, func(in ssa.Instruction) {
+	c.regionInstrs(fn, func(_ *ssa.Function, in ssa.Instruction) {
 		var val ssa.Value
 		what := ""
 		switch x := in.(type) {
@@ -374,12 +395,12 @@ func (c *Ctx) checkSeqReported(fn *ssa.Function, incr []*ssa.Store, lastID, seqI
 		r.Check(isLoad || isIncrVal, "C01.2e-reported-seq-is-lastID", construct, c.pos(in), "value is Topic.lastID after the increment", "the id reported to clients is not Topic.lastID: "+val.String())
 		// the load itself must come after the increment
 		target := func(i ssa.Instruction) bool { return i == in }
-		found, _ := core.PathAvoiding(fn, nil, target, isIncr, nil)
+		found, _ := core.PathAvoidingX(fn, nil, target, isIncr, nil)
 		r.Check(!found, "C01.2f-reported-after-increment", construct, c.pos(in), "reached only after the increment", "the id is reported on a path that has not yet advanced lastID")
 		if isLoad {
 			// and the load instruction itself is after the increment
 			ld := core.Strip(val).(ssa.Instruction)
-			found, _ := core.PathAvoiding(fn, nil, func(i ssa.Instruction) bool { return i == ld }, isIncr, nil)
+			found, _ := core.PathAvoidingX(fn, nil, func(i ssa.Instruction) bool { return i == ld }, isIncr, nil)
 			r.Check(!found, "C01.2f-reported-after-increment", construct+" (load)", c.pos(in), "lastID loaded after the increment", "lastID is read for reporting before it was advanced")
 		}
 	})
